@@ -3,7 +3,8 @@
 (* recording sink and the real JsonFileSink whose file is read back) are judged by the contract    *)
 (* NamedArgsContract.  One line per statement:                                                     *)
 (*  {"op":"stmt","i":n,"tpl":[chars],"nargs":k,                                                    *)
-(*   "oracle":{"ok":b,"pos":s,"specs":[s],"text":s,"vals":[s]},   fmt itself on the REFERENCE template *)
+(*   "oracle":{"ok":b,"pos":s,"specs":[s],"text":s,"textnt":s,"vals":[s]},  fmt itself on the REFERENCE template *)
+(*   "varnames":[s],                                               LOGJ_ statements: variable names of the call *)
 (*   "text":s,"pairs":[[k,v]],                                     what the recording sink received    *)
 (*   "meta":{"ts","file","path","line","thread","logger","level"}, what the statement was issued with  *)
 (*   "json":{"nlines":n,"object":b,"parsed":b,"needesc":b,"members":[[k,v]]}}   bytes the JSON sink wrote *)
